@@ -278,7 +278,7 @@ Lemma ex_binop ip i op stk a b v g :
   exec1 (ip, stk ++ [a; b], g) (ip + 1, stk ++ [v], g).
 Proof.
   intros Hc Hi Hop Hroom. split; [eapply code_at_lt; eauto|]. intros s rem HS.
-  destruct i; try discriminate Hi; injection Hi as <-; opc Hc;
+  destruct i; try discriminate Hi; cbn [binop_sem] in Hi; injection Hi as Hi; subst op; opc Hc;
     eapply binary_op_St; eauto.
 Qed.
 
@@ -310,7 +310,7 @@ Proof.
   destruct (St_pop _ _ HS) as (s1 & E1 & HS1). rewrite E1.
   assert (Hg : st_globals s1 = g) by (destruct HS1 as (_ & _ & _ & _ & _ & _ & _ & Hg & _); exact Hg).
   rewrite Hg. eexists. split; [replace (ip + 1 + 4) with (ip + 5) by lia; reflexivity|].
-  apply St_set_globals. exact HS1.
+  eapply St_set_globals. exact HS1.
 Qed.
 
 Lemma ex_read_global ip id stk v g :
@@ -331,13 +331,15 @@ Lemma ex_read_global_err ip id stk g :
   (forall v, nth_error g (N.to_nat id) <> Some (Some v)) ->
   exists nm, exec_err (ip, stk, g) (EVarNotFound (Some nm)).
 Proof.
-  intros Hc Hid Hv. eexists. split; [eapply code_at_lt; eauto|]. intros s rem HS. opc Hc.
+  intros Hc Hid Hv.
+  exists (match assoc (handle_from_u32 id) (p_var_names P) with Some nm => nm | None => unknown_var_name end).
+  split; [eapply code_at_lt; eauto|]. intros s rem HS. opc Hc.
   unfold i_18, op_u32. rewrite (code_at_operand1 (w := 4) Hc eq_refl eq_refl (fits4_lt Hid)).
   assert (Hg : st_globals s = g) by (destruct HS as (_ & _ & _ & _ & _ & _ & _ & Hg & _); exact Hg).
   rewrite Hg. destruct (nth_error g (N.to_nat id)) as [[v|]|] eqn:E.
   - exfalso. eapply Hv; reflexivity.
-  - eexists _, s. split; [reflexivity | exact Hg].
-  - eexists _, s. split; [reflexivity | exact Hg].
+  - exists (ip + 1 + 4), s. split; [reflexivity | exact Hg].
+  - exists (ip + 1 + 4), s. split; [reflexivity | exact Hg].
 Qed.
 
 End Sim.
